@@ -26,7 +26,30 @@ pub mod kani {
     pub fn load(values: Vec<Vec<u8>>) {
         VALUES.with(|v| *v.borrow_mut() = values.into());
     }
+    thread_local! {
+        /// sweep mode (no concrete playback available): values come from a seeded generator biased towards small and boundary values
+        pub static SWEEP: std::cell::Cell<Option<u64>> = std::cell::Cell::new(None);
+    }
+    pub struct AssumeFalse;
+    fn rnd() -> u64 {
+        SWEEP.with(|s| {
+            let mut x = s.get().unwrap();
+            x ^= x << 13; x ^= x >> 7; x ^= x << 17;
+            s.set(Some(x));
+            x
+        })
+    }
     pub fn next_bytes(n: usize) -> Vec<u8> {
+        if SWEEP.with(|s| s.get()).is_some() {
+            let r = rnd();
+            let v: u128 = match r % 10 {
+                0..=5 => ((r >> 8) % 48) as u128,
+                6 => u128::MAX - ((r >> 8) % 3) as u128,
+                7 => ((r >> 8) % 300) as u128,
+                _ => ((rnd() as u128) << 64) | rnd() as u128,
+            };
+            return v.to_le_bytes()[..n].to_vec();
+        }
         let got = VALUES.with(|v| v.borrow_mut().pop_front());
         match got {
             Some(b) if b.len() == n => b,
@@ -56,6 +79,9 @@ pub mod kani {
         T::any()
     }
     pub fn assume(c: bool) {
+        if !c && SWEEP.with(|s| s.get()).is_some() {
+            std::panic::panic_any(AssumeFalse);      // this sample does not satisfy the harness' precondition: next one
+        }
         if !c {
             // the recorded assignment does not satisfy the harness' precondition: not a counterexample
             eprintln!("REPLAY-ASSUME-FALSE");
